@@ -25,12 +25,12 @@ struct Dict {
 };
 Dict dictFor(long k) {
     static const std::vector<std::vector<std::string>> D = {
-        {"alpha", "beta", "gamma", "delta"},
-        {"Abc", "abc", "ABC", "aBc"},
-        {"01234567-89ab-cdef-0123-456789abcdef", "fedcba98-7654-3210-fedc-ba9876543210", "aaaaaaaa-bbbb-cccc-dddd-eeeeeeeeeeee", "00000000-0000-0000-0000-000000000000"},
-        {"a b", " a", "a.b..", "b "},
-        {"\xc3\xa4\xc3\xb6\xc3\xbc", "\xe6\x97\xa5\xe6\x9c\xac\xe8\xaa\x9e", "na\xc3\xafve \xe2\x98\x83", "\xce\xa9"},
-        {std::string(200, 'x'), std::string(199, 'x') + "y", std::string(200, 'y'), std::string(150, 'z')}};
+        {"alpha", "beta", "gamma", "delta", "epsilon", "zeta"},
+        {"Abc", "abc", "ABC", "aBc", "abC", "AbC"},
+        {"01234567-89ab-cdef-0123-456789abcdef", "fedcba98-7654-3210-fedc-ba9876543210", "aaaaaaaa-bbbb-cccc-dddd-eeeeeeeeeeee", "00000000-0000-0000-0000-000000000000", "ffffffff-ffff-ffff-ffff-ffffffffffff", "12345678-1234-1234-1234-123456789abc"},
+        {"a b", " a", "a.b..", "b ", "..", "a\tb"},
+        {"\xc3\xa4\xc3\xb6\xc3\xbc", "\xe6\x97\xa5\xe6\x9c\xac\xe8\xaa\x9e", "na\xc3\xafve \xe2\x98\x83", "\xce\xa9", "\xd0\x96", "\xf0\x9f\x98\x80"},
+        {std::string(200, 'x'), std::string(199, 'x') + "y", std::string(200, 'y'), std::string(150, 'z'), std::string(255, 'q'), std::string(1, 'w')}};
     Dict d; d.names = D[(size_t) (((k % 6) + 6) % 6)]; return d;
 }
 std::string typeOf(const std::string &t) { return t == "t1" ? "type.one" : t == "t2" ? "type.two" : t; }
@@ -909,4 +909,106 @@ json handleInner(Ctx &c, const json &rec) {
 }
 
 Reg reg("file", handle);
+
+// ------------------------------------------------------------------ direction B: random driver
+// Executes a random API program (not derived from the specification) and records one event per call at its
+// return - also on the exception path: abstract call, outcome class, eid given to a newly created entity, and the
+// complete projected state.  NixFileTrace.tla then decides whether every recorded step is a step of NixFile.
+struct Rng { unsigned long long s; unsigned long long next() { s ^= s << 13; s ^= s >> 7; s ^= s << 17; return s; } long pick(long n) { return n <= 0 ? 0 : (long) (next() % (unsigned long long) n); } };
+
+std::vector<std::string> ownSlots(const std::string &k) {
+    if (k == "file") return {"blocks", "sections"}; if (k == "block") return {"arrays", "frames", "tags", "mtags", "groups", "sources"};
+    if (k == "section") return {"sections", "props"}; if (k == "source") return {"sources"}; if (k == "tag" || k == "mtag") return {"features"}; return {};
+}
+std::vector<std::string> linkSlots(const std::string &k) {
+    if (k == "tag" || k == "mtag") return {"refs", "esources"}; if (k == "array" || k == "frame") return {"esources"};
+    if (k == "group") return {"esources", "garrays", "gframes", "gtags", "gmtags"}; return {};
+}
+std::vector<std::string> oneSlots(const std::string &k) {
+    if (k == "mtag") return {"metadata", "positions", "extents"}; if (k == "feature") return {"data"}; if (k == "section") return {"link"};
+    if (k == "block" || k == "source" || k == "array" || k == "frame" || k == "tag" || k == "group") return {"metadata"}; return {};
+}
+std::string linkKind(const std::string &s) { return s == "refs" || s == "garrays" ? "array" : s == "esources" ? "source" : s == "gframes" ? "frame" : s == "gtags" ? "tag" : "mtag"; }
+std::string oneKind(const std::string &s) { return (s == "metadata" || s == "link") ? "section" : "array"; }
+
+json driveHandle(Ctx &c, const json &rec) {
+    Session s; s.path = c.path("drive.nix"); s.dict = dictFor(c.opts.value("names", c.seed));
+    unlink(s.path.c_str());
+    Rng rng{(unsigned long long) (rec.value("seed", 1L) * 2654435761ULL + 88172645463325252ULL)};
+    long steps = rec.value("steps", 100L), nnames = rec.value("names", 4L), maxEnts = rec.value("max_entities", 30L);
+    std::ofstream out(rec["trace"].get<std::string>());
+    s.f = nix::File::open(s.path, nix::FileMode::Overwrite); s.open = true; s.mode = "rw";
+    long nextEid = 1, events = 0;
+    json obs = observe(s);
+    auto args = [](long p, const std::string &slot, const std::string &n, long t, const std::string &by, long v) {
+        return json{{"p", p}, {"slot", slot}, {"n", n}, {"t", t}, {"by", by}, {"v", v}}; };
+    for (long st = 0; st < steps; st++) {
+        // entities by kind from the last observation
+        std::map<std::string, std::vector<json>> byKind; std::vector<json> ents;
+        for (auto &e : obs["ents"]) { byKind[e["kind"].get<std::string>()].push_back(e); ents.push_back(e); }
+        json step;
+        if (!s.open) { step = json{{"a", "Open"}, {"args", args(0, "", rng.pick(4) == 0 ? "ro" : "rw", 0, "", 0)}}; }
+        else {
+            long what = rng.pick(100);
+            const json &e = ents[(size_t) rng.pick((long) ents.size())];
+            std::string k = e["kind"]; long eid = e["eid"];
+            std::vector<std::string> os = ownSlots(k), ls = linkSlots(k), ns = oneSlots(k);
+            auto anyOf = [&](const std::string &kind) -> long { auto &v = byKind[kind]; return v.empty() ? NONE : v[(size_t) rng.pick((long) v.size())]["eid"].get<long>(); };
+            if (what < 34 && !os.empty() && (long) ents.size() < maxEnts) {
+                std::string slot = os[(size_t) rng.pick((long) os.size())];
+                bool needsArr = slot == "mtags" || slot == "features";
+                long x = needsArr ? anyOf("array") : NONE;
+                if (needsArr && x == NONE) { st--; if (byKind["block"].empty() || rng.pick(3)) { step = json{{"a", "Create"}, {"args", args(0, "blocks", "n" + std::to_string(1 + rng.pick(nnames)), NONE, "", 1)}}; } else continue; }
+                else step = json{{"a", "Create"}, {"args", args(eid, slot, slot == "features" ? "" : "n" + std::to_string(1 + rng.pick(nnames)), x, "", (slot == "arrays" || slot == "features") ? 1 + rng.pick(2) : 1)}};
+            } else if (what < 46 && eid != 0) {
+                // delete e from its owning container: find the parent
+                long parent = -1; std::string slot;
+                for (auto &p : ents) for (auto it = p["kids"].begin(); it != p["kids"].end(); ++it) {
+                    bool owning = false; for (auto &o : ownSlots(p["kind"])) if (o == it.key()) owning = true;
+                    if (owning) for (auto &c2 : it.value()) if (c2.get<long>() == eid) { parent = p["eid"]; slot = it.key(); }
+                }
+                if (parent < 0) continue;
+                std::vector<std::string> bys = {"id"}; if (k != "feature") bys.push_back("name"); if (s.retained.count(eid)) bys.push_back("handle");
+                step = json{{"a", "Delete"}, {"args", args(parent, slot, "", eid, bys[(size_t) rng.pick((long) bys.size())], 0)}};
+            } else if (what < 62 && !ls.empty()) {
+                std::string slot = ls[(size_t) rng.pick((long) ls.size())]; long t = anyOf(linkKind(slot));
+                if (t == NONE) continue;
+                bool present = false; for (auto &x : e["kids"][slot]) if (x.get<long>() == t) present = true;
+                std::string by = (s.retained.count(t) && rng.pick(2)) ? "handle" : "id";
+                step = json{{"a", (present && rng.pick(3)) ? "RemoveLink" : "AddLink"}, {"args", args(eid, slot, "", t, by, 0)}};
+                if (step["a"] == "RemoveLink" && !present) continue;
+            } else if (what < 76 && !ns.empty()) {
+                std::string slot = ns[(size_t) rng.pick((long) ns.size())]; long t = rng.pick(4) == 0 ? NONE : anyOf(oneKind(slot));
+                if (t == NONE && (slot == "positions" || slot == "data")) continue;
+                step = json{{"a", "SetOne"}, {"args", args(eid, slot, "", t, "", 0)}};
+            } else if (what < 84 && eid != 0 && k != "block" && k != "source" && k != "group") step = json{{"a", "SetAttr"}, {"args", args(eid, "", "", 0, "", 1 + rng.pick(2))}};
+            else if (what < 88 && eid != 0 && k != "feature" && k != "prop") step = json{{"a", "SetType"}, {"args", args(eid, "", rng.pick(5) ? "t2" : "", 0, "", 0)}};
+            else if (what < 91 && eid != 0 && k != "feature") step = json{{"a", "SetDef"}, {"args", args(eid, "", "", 0, "", rng.pick(2))}};
+            else if (what < 94 && k == "array" && e["dims"].size() < 3) { std::string dk[] = {"set", "sampled", "range", "frame"}; std::string d = dk[rng.pick(4)]; long f = d == "frame" ? anyOf("frame") : NONE;
+                if (d == "frame") { bool sameBlock = false; if (f != NONE) for (auto &b : byKind["block"]) { bool ha = false, hf = false; for (auto &x : b["kids"]["arrays"]) if (x.get<long>() == eid) ha = true; for (auto &x : b["kids"]["frames"]) if (x.get<long>() == f) hf = true; if (ha && hf) sameBlock = true; } if (!sameBlock) continue; }
+                step = json{{"a", "AppendDim"}, {"args", args(eid, d, "", f, "", 0)}}; }
+            else if (what < 95 && k == "array" && e["dims"].size() > 0) step = json{{"a", "DeleteDims"}, {"args", args(eid, "", "", 0, "", 0)}};
+            else if (what < 97) step = json{{"a", "Flush"}, {"args", args(0, "", "", 0, "", 0)}};
+            else if (what < 99) step = json{{"a", "Close"}, {"args", args(0, "", "", 0, "", 0)}};
+            else continue;
+        }
+        step["res"] = "ok"; step["new"] = 0;
+        if (step["a"] == "Create") step["new"] = nextEid;      // the eid the entity gets if the call succeeds
+        std::string r = doStep(c, s, step, st);
+        if (step["a"] == "Create") { if (r == "ok") nextEid++; else step["new"] = 0; }
+        step["res"] = r;
+        obs = observe(s);
+        json lean = json{{"open", obs["open"]}, {"mode", obs["mode"]}, {"ents", json::array()}, {"issues", obs["issues"]}};
+        for (auto &e2 : obs["ents"]) lean["ents"].push_back(json{{"eid", e2["eid"]}, {"kind", e2["kind"]}, {"name", e2["name"]}, {"type", e2["type"]}, {"def", e2["def"]}, {"attr", e2["attr"]},
+                                                                 {"sh", e2["sh"]}, {"kids", e2["kids"]}, {"one", e2["one"]}, {"dims", e2["dims"]}});
+        step["obs"] = lean;
+        out << step.dump() << "\n";
+        events++;
+    }
+    out.close();
+    if (s.open) { try { s.f.close(); } catch (...) {} }
+    json r = ok(); r["events"] = events; r["n"] = events; r["entities_created"] = nextEid - 1;
+    return r;
+}
+Reg regDrive("drive", driveHandle);
 }
